@@ -11,13 +11,15 @@ from harness import tlc
 from harness.pool import Pool
 
 ORG = {"low": (0x008000, 0x01FFFD, 0x028000), "low2": (0x808000, 0x81FFFD, 0x828000), "high": (0xC00000, 0xC0FFFD, 0xC10000)}
-DEFS = [{}, {"DEFV": 0x1234}, {"DEFV": 0x8001, "DEFF": 1}]
+DEFS = [{}, {"DEFV": 0x1234}, {"DEFV": 0x8001, "DEFF": 1, "DEFN": -0x10}]
+# the text each value is given as on the command line (decimal, hexadecimal, signed)
+DEF_TEXTS = [{}, {"DEFV": "4660"}, {"DEFV": "0x8001", "DEFF": "1", "DEFN": "-0x10"}]
 
 
 def label_names(ndef: int, k: int) -> list[str]:
     """the label definitions the template makes outside loop iterations, with multiplicity (by construction)"""
     names = ["start"] + (["flagged"] if ndef >= 2 else []) + ["local", "local"]
-    names += {1: [], 2: ["entry"], 3: ["inner"], 0: []}[k % 4]
+    names += {1: [], 2: ["entry", "entry2"], 3: ["inner"], 0: []}[k % 4]
     names += ["edge", "crossed"] + (["ram_code"] if k % 2 else []) + ["after"]
     return sorted(names)
 
@@ -28,14 +30,15 @@ def program(mapping: str, ndef: int, k: int) -> str:
     if ndef >= 1:
         lines += [".dw DEFV", "lda.w #DEFV + 1", "derived = DEFV & 0xff", ".db derived"]
     if ndef >= 2:
-        lines += [".if DEFF {", ".db 0x11", "flagged:", "} else {", ".db 0x22", "}"]
+        lines += [".if DEFF {", ".db 0x11", "flagged:", "} else {", ".db 0x22", "}", ".db DEFN + 0x20"]
     else:
         lines += [".if UNDEFINED_FLAG {", ".db 0x11", "} else {", ".db 0x22", "}"]
     lines += [".macro put(v) {", "local:", ".dl v", ".dw local", "}", "put(start)", "put(after)"]
     if k % 4 == 1:
         lines += [".for i := 0, 3 {", "inloop:", ".db i", "}"]
     if k % 4 == 2:
-        lines += [".scope tools {", "entry:", "rtl", "}", "jsr.l tools.entry"]
+        # the same scope name used twice: two scopes, each label definition is one definition
+        lines += [".scope tools {", "entry:", "rtl", "}", "jsr.l tools.entry", ".scope tools {", "entry2:", "rts", "}", "jsr.l tools.entry2"]
     if k % 4 == 3:
         lines += [".ascii 'front end'", "{", "inner:", ".dl inner", "}"]
     sections = [[f"*=0x{edge:06x}", "edge:", ".dl edge", "crossed:", ".dl crossed"]]
@@ -43,6 +46,8 @@ def program(mapping: str, ndef: int, k: int) -> str:
         sections.append([f"*=0x{other + 0x10 * k:06x}", "@=0x7e2000", "ram_code:", "lda.l ram_code", ".dl ram_code"])
     sections.append([f"*=0x{a + 0x40:06x}", "after:", ".db 0xAA"])   # overwrites part of the first block: last write wins
     sections.append([f"*=0x{other + 0x8000:06x}", ".db 0x5a"])           # a high block
+    # two blocks that overlap, the later one starting lower (file order decides, not offset order)
+    sections.append([f"*=0x{other + 0x9004:06x}", ".db 1, 2, 3, 4", f"*=0x{other + 0x9000:06x}", ".db 9, 9, 9, 9, 9, 9", f"*=0x{other + 0x9003:06x}", ".db 7, 7"])
     # the order in which the positions are visited rotates with k (ascending, middle-low-high, high first, ...)
     r = (k // 2) % len(sections)
     for sec in sections[r:] + sections[:r]:
@@ -55,7 +60,7 @@ def run(ctx) -> None:
     ctx.rule = ("cases = every point of GenC12's lattice (2 formats x 3 mappings x header x 0-2 defines x entry point "
                 f"assemble/patch/cli) x {nprog} programs valid under the mapping; non-trivial = distinct (lattice point, program)")
     ctx.trusted = ["TLC 1.8", "spec/FrontDefs.tla + Ips.tla", "program templates in harness/props/c12.py", "tolerant symbol-file line parser"]
-    ctx.assumptions = ["-D values are decimal or 0x hexadecimal integers", "the copier header applies to the IPS format only"]
+    ctx.assumptions = ["-D values are decimal or 0x hexadecimal integers, optionally signed", "the copier header applies to the IPS format only"]
     m = tlc.run("MC_C12", "INIT Init\nNEXT Next\nCHECK_DEADLOCK FALSE\nINVARIANT Relations\n", tag="c12.mc", workers=4)
     ctx.add_tlc(m, "MC_C12: file relations consistent with the writer as specified (and not vacuous)")
     g = tlc.run("GenC12", "INIT Init\nNEXT Next\nCHECK_DEADLOCK FALSE\nINVARIANT Emit\n", tag="c12.gen")
@@ -69,8 +74,8 @@ def run(ctx) -> None:
             defs = DEFS[pt["ndef"]]
             src = program(pt["mapping"], pt["ndef"], k)
             tasks.append({"entry": pt["entry"], "src": src, "format": pt["format"], "mapping": pt["mapping"], "header": pt["header"],
-                          "defines": defs, "symfile": True, "assemble_takes_mapping": True})
-            pre = "".join(f"{n} := 0x{v:x}\n" for n, v in defs.items())
+                          "defines": defs, "define_texts": DEF_TEXTS[pt["ndef"]], "symfile": True, "assemble_takes_mapping": True})
+            pre = "".join(f"{n} := {v}\n" for n, v in defs.items())
             tasks.append({"entry": "string", "src": pre + src, "mapping": pt["mapping"]})
             meta.append((pt, k))
     res = Pool().map("run_entry", tasks, timeout=90, batch=6)
